@@ -462,7 +462,7 @@ func c19Prop(st *CaseStats, fam int) func(t *rapid.T) {
 					if firstFail < 0 {
 						firstFail = i
 					}
-					if err == nil && res != "" && res != good[i] {
+					if err == nil && res != "" && res != good[i] && !(o.kind == 3 && dvFieldwiseSubset(res, good[i])) {
 						t.Fatalf("%s:\n  storage fails from read #%d on: call #%d %s saw a failing read but returned no error and a wrong non-empty result %q (fault-free: %q)", desc, k, i, o, res, good[i])
 					}
 				} else if firstFail < 0 {
@@ -477,7 +477,7 @@ func c19Prop(st *CaseStats, fam int) func(t *rapid.T) {
 					// after the storage started failing, a call served from warm caches must be correct,
 					// or report an error / an empty result (a cache invalidated by the earlier failure);
 					// a different non-empty result would be silently wrong data
-					if err == nil && res != "" && res != good[i] {
+					if err == nil && res != "" && res != good[i] && !(o.kind == 3 && dvFieldwiseSubset(res, good[i])) {
 						t.Fatalf("%s:\n  storage fails from read #%d on: call #%d %s (after the first failed call, no storage read of its own) returned no error and a wrong non-empty result %q (fault-free: %q)", desc, k, i, o, res, good[i])
 					}
 					if err == nil && res == "" && good[i] != "" {
@@ -494,6 +494,39 @@ func c19Prop(st *CaseStats, fam int) func(t *rapid.T) {
 		st.Label("later-call-empty-instead-of-cached-result(allowed)", staleEmpty)
 		st.Record(desc, nt, c.LabelList()...)
 	}
+}
+
+// dvFieldwiseSubset: a doc-value visit over several fields consults one reader per
+// field; after a storage failure some of them may answer "nothing" (an empty result
+// for that field, which the property allows) while others still answer from their
+// cache. Every field's values must be exactly the fault-free ones or absent; values
+// that the fault-free run did not deliver for that field are never acceptable.
+func dvFieldwiseSubset(got, want string) bool {
+	parse := func(s string) (map[string]string, bool) {
+		m := map[string]string{}
+		for _, tok := range strings.Split(strings.TrimSpace(s), " ") {
+			if tok == "" {
+				continue
+			}
+			i := strings.Index(tok, "=")
+			if i < 0 {
+				return nil, false
+			}
+			m[tok[:i]] += tok[i:] + " "
+		}
+		return m, true
+	}
+	g, ok1 := parse(got)
+	w, ok2 := parse(want)
+	if !ok1 || !ok2 {
+		return false
+	}
+	for f, v := range g {
+		if w[f] != v {
+			return false
+		}
+	}
+	return true
 }
 
 func infraTrim(s string) string {
